@@ -69,8 +69,47 @@ def _call(gen, case, seed, with_order):
     return lib(gens.dag_full, p, **kw)
 
 
+def check_large(case):
+    """Validity of one very large graph with numpy-level oracles (the bitset oracle is for small graphs)."""
+    from props.gcommon import has_cycle_big
+    gen, p, s = case["gen"], case["p"], case["seeds"][0]
+    w_min, w_max = case["w"]
+    res = must(_call(gen, case, s, True), "large %s p=%d seed=%d" % (gen, p, s))
+    W, order = res
+    W = np.asarray(W)
+    what = "dag_%s(p=%d%s, w=[%r,%r], random_state=%d)" % ("avg_deg" if gen == "avg" else "full", p, "" if gen == "full" else ", k=%r" % case["k"], w_min, w_max, s)
+    if W.shape != (p, p):
+        raise Violation("bad_shape", "%s returned shape %r" % (what, W.shape))
+    nz = W != 0
+    ne = int(nz.sum())
+    if np.diag(nz).any():
+        raise Violation("selfloop", "%s: non-zero diagonal" % what)
+    if ne and (W[nz].min() < w_min or W[nz].max() > w_max):
+        raise Violation("weight_out_of_range", "%s: weights outside the requested range" % what)
+    if (nz & nz.T).any():
+        raise Violation("not_a_dag", "%s contains a two-cycle" % what)
+    order = np.asarray(order)
+    if order.shape != (p,) or not np.array_equal(np.sort(order), np.arange(p)):
+        raise Violation("ordering_not_permutation", "%s: ordering is not a permutation" % what)
+    pos = np.empty(p, dtype=np.int64)
+    pos[order] = np.arange(p)
+    fro, to = np.nonzero(nz)
+    if not (pos[fro] < pos[to]).all():
+        raise Violation("ordering_not_topological", "%s: an edge points backwards in the returned ordering (hence also: not shown acyclic)" % what)
+    m = p * (p - 1) // 2
+    if gen == "full" and not (w_min <= 0 <= w_max) and ne != m:
+        raise Violation("not_complete", "%s has %d of %d edges" % (what, ne, m))
+    if gen == "avg" and case["k"] == 0 and ne != 0:
+        raise Violation("not_empty", "%s has %d edges for k=0" % (what, ne))
+    if gen == "avg" and case["k"] == p - 1 and not (w_min <= 0 <= w_max) and ne != m:
+        raise Violation("not_complete", "%s has %d of %d edges for k=p-1" % (what, ne, m))
+    return ["large", "gen_" + gen, "nt"]
+
+
 def check(case):
     """One configuration x S seeds (sub 'grid'), or a single call (sub 'single')."""
+    if case["sub"] == "large":
+        return check_large(case)
     gen, p = case["gen"], case["p"]
     w_min, w_max = case["w"]
     zero_in = w_min <= 0 <= w_max
@@ -218,6 +257,11 @@ def plan(tier, seed):
     nshards = 32 if tier == "quick" else 96
     for k in range(nshards):
         jobs.append({"sub": "grid", "seed": seed, "shard": k, "nshards": nshards, "tier": tier, "cost": 10})
+    # very large graphs: k = 0 must stay empty, k = p-1 complete (any rounding of the edge probability shows here), and
+    # dag_full beyond a few thousand nodes (block-wise implementations)
+    big = [("avg", 3000, 0.0)] * (24 if tier == "quick" else 96) + [("avg", 1500, 1499.0), ("full", 2049, None), ("full", 2600, None), ("avg", 2100, 3.0)]
+    for n, (gen, p, k) in enumerate(big):
+        jobs.append({"sub": "large", "seed": seed, "gen": gen, "p": p, "k": k, "index": n, "cost": 12})
     n = scaled(6400 if tier == "quick" else 80000)
     shards = 8 if tier == "quick" else 32
     for k in range(shards):
@@ -227,6 +271,16 @@ def plan(tier, seed):
 
 def run(job):
     acc = Acc(job["sub"])
+    if job["sub"] == "large":
+        case = {"sub": "large", "gen": job["gen"], "p": job["p"], "k": job["k"], "w": [[1, 1], [-2, -0.5], [0.5, 2]][job["index"] % 3],
+                "ordering": "yes", "seeds": [job["seed"] * 7919 + job["index"]]}
+        try:
+            acc.record(case, check(case), True, by_construction=True, sample=(job["index"] in (0, 25)))
+        except Violation as v:
+            acc.record(case, [], False)
+            acc.violation(case, v)
+        acc.exhaustive = False
+        return acc
     if job["sub"] == "grid":
         cfgs = _grid(job["tier"], job["seed"])
         calls = 0
